@@ -12,6 +12,13 @@ CONFIG = dict(
                "that originates from S is an initial segment of S's issue order towards c (projection_preserved, socket_in_issue_order), its counters "
                "are 0,1,2,.. (no gap, repetition or inversion), whatever was issued before a response has arrived before it (push_before_response), "
                "and once the stages are drained everything has arrived exactly once (drained_all_arrived); a closing session loses a suffix only. "
+               "The SERVICE as the unit of order (Lemmas/FifoNetSvc.lean): with the hand-over log e of a schedule (ReachableX: every item in the order in which a "
+               "service goroutine handed it to the framework - handler code, timer callbacks and the closures of ALL its workers as executed), for every service S "
+               "and client c the part of c's stream that comes from S, whatever thread issued it, is an initial segment of S's hand-over order (service_order_preserved, "
+               "socket_in_service_order), so a push handed over before the completion arrives before the response also when a worker's posted closure completes the "
+               "request (service_push_before_response); the hand-over log restricted to a thread is a prefix of that thread's issue/Post order (handed_over_in_issue_order); "
+               "and no reachable state is stuck: a continuation of deliver/process/write steps that issues nothing brings everything S handed over to an open "
+               "connection, also from a front blocked on a full send queue (service_eventually_all_arrived; induction on queue lengths). "
                "The pre-repair behaviour of D8 (front-local push through the front's own mailbox) and the selfBlockDefend overflow path of Sche.Post are "
                "and a send queue that spills over to helper goroutines instead of blocking are proved to break the statement (small witnesses); the bounded send "
                "queue with a blocked sender is part of the model. selfBlockDefend=false / assigned nowhere / QueueSize are re-extracted from utils/sche on "
@@ -20,12 +27,24 @@ CONFIG = dict(
                "of 10^3 (quick) to 10^4 (thorough) pushes, virtual sleeps past the 20 ms frame budget (smoothing pauses on back-ends and, via naps, on "
                "the front), timers, PushMessageByIds, workers posting >999 closures into a busy service (blocking posts), clients closing mid-burst, clients that stop "
                "reading until the 9999-slot send queue is full and the front blocks on it (GOMAXPROCS 8 and 1); the "
+               "a client closing while the front is busy so that multi-target pushes name the dead, not yet removed connection before live ones, with on-close "
+               "callbacks of the front (SetOnCloseHandler / AddOnSessionOnClose) that push to the others; clients repeating HandshakeAck / the whole handshake on a "
+               "working connection over a link that holds single packets up for some ms; pushes of a value the serializer rejects (empty body, ids in the route); the "
                "model must accept every client's stream (a confluent search for a front schedule that writes exactly the observed streams) and the "
-               "property predicate is evaluated on the implementation's own issue logs and arrival streams.",
+               "property predicate is evaluated on the implementation's own issue logs and arrival streams - per thread AND per service (arrivals from one service, all "
+               "threads together, must follow the service goroutine's own execution log).",
     level_note="Partial: proto.actor per-(sender,receiver) FIFO, Go channel FIFO (chSend, chanTask) and net.Conn/TCP ordering are assumptions of the "
                "model; the front mailbox's own FIFO is C09's theorem (delivered_prefix), the task queue's per-poster FIFO is C15's; a response that "
                "reaches the front after its 30 s request timeout is dropped there (outside the model); actor `remote`, the TCP/WS acceptors and etcd are "
-               "bypassed by the engine. The theorems are about the model; the differential run ties it to the code on sampled schedules only.",
+               "bypassed by the engine. Per-ITEM drops are outside the model (its only loss is the suffix of a closed session): ClientSession.send drops a packet the "
+               "encoder refuses (PomeloPacketEncoder: payload >= 2^24 bytes) and later items are still delivered - reproduced on the real code (reset n=1; req c=0 to=0 "
+               "r=1/p0,p0b16777216,p0,r,p0 -> the client reads #0,#2,#3r,#4) and stated as an assumption below, the generator stays below 64 KB. The configuration the "
+               "theorems are instantiated at takes selfBlockDefend/QueueSize from the source; localDirect=true (pushLocal) and sendOverflow=false (pushToSend blocks) are "
+               "tied behaviourally only: the D8 corpus case, the front-local sweep and the two stalled-client cases run on every run and the model driver uses the same "
+               "Cfg. A multi-target PushMessageByIds is one mailbox message in Go and independent items in the model (more interleavings: an over-approximation, safe "
+               "for the prefix theorems; the fan-out loop itself - re-entrancy, a block in the middle - is covered by the differential run only). Progress is proved as "
+               "'never stuck' (a draining continuation exists), not under a fairness assumption about the Go scheduler. The theorems are about the model; the "
+               "differential run ties it to the code on sampled schedules only.",
     gen=["cd harness && go1.26 run ./extract/c15 -out ../lean/Cell2v/Gen/C15Consts.lean"],
     lean_targets=["Cell2v.Props.C03", "modeld_c03"],
     driver="modeld_c03",
@@ -34,7 +53,9 @@ CONFIG = dict(
     required_theorems=["shipped_overflow_path_off", "projection_preserved", "socket_in_issue_order", "arrived_counters", "arrival_position",
                        "push_before_response", "nothing_duplicated", "drained_all_arrived", "closed_loses_only_a_suffix", "front_local_order",
                        "front_local_order_pre_fix_fails", "overflow_path_reorders", "send_overflow_path_reorders",
-                       "full_queue_blocks_the_front", "no_stage_blocks"],
+                       "full_queue_blocks_the_front", "no_stage_blocks",
+                       "service_order_preserved", "socket_in_service_order", "service_push_before_response", "handed_over_in_issue_order",
+                       "service_drained_all_arrived", "service_eventually_all_arrived", "every_schedule_has_a_hand_over_log"],
     harness_pkg="./c03",
     mode="accept",
     reset_prefix="reset",
@@ -65,11 +86,18 @@ CONFIG = dict(
          "(the expired sys.pushmsg requests must not be delivered twice); handlers that Set a session value without pushing it (dirty BackSession) before "
          "answering, followed at once by a push / a pipelined response of the same service; one PushMessageByIds to 257-344 connections of the front (four "
          "observed clients listed #1, #256, #257 and last among unobserved real sessions) followed at once by a push/response to a late-listed connection; "
+         "a client closing while the front sleeps inside a handler (its session closed, the posted RemoveSession not yet run) followed by PushMessageByIds of the "
+         "front and of another service whose id lists name the dead connection before live ones, with on-close callbacks (reset bye=1: SetOnCloseHandler for even, "
+         "AddOnSessionOnClose for odd clients) pushing a notice to the other clients when the removal runs - also in a third of the mixed and half of the close cases; "
+         "a client that sends one or two more HandshakeAck packets (or a whole second handshake) on its working connection and whose link then holds 1-3 single "
+         "packets up for 1-25 ms each (op lag) while a burst and the response are queued; pushes of a value encoding/json rejects (NaN: action u<c>, travels with an "
+         "empty body, ids in the route) before / after the response, front-local and from back-ends (two cases of each of these three in the sweep of every run); "
          "runs with GOMAXPROCS 8 and 1. Each op runs to quiescence (synctest.Wait) and reports the issue logs (per worker in Post "
          "order, per service goroutine in execution order) and per client the arrival stream; corpus (the D8 witness) first. Non-trivial = an op that "
          "produced issue or arrival records; distinct = distinct (op, observation) pairs.",
     trusted_base=[
         "Lean 4.33.0 kernel; axioms of every property theorem audited on each run (allowed: propext, Classical.choice, Quot.sound)",
+        "the hand-over log of Lemmas/FifoNetSvc.lean (ReachableX/handed) is defined over the same model steps; tied to the code by the service goroutines' own logs (L sections) judged by the spec monitor",
         "hand-written model lean/Cell2v/Model/FifoNet.lean, tied to the Go code by the differential run of this check (harness/c03 + modeld_c03 accept/spec)",
         "translator harness/extract/c15 (go/ast): selfBlockDefend initial value and absence of assignments, QueueSize (shared with C15)",
         "C09: the front mailbox delivers user messages once, in push order (theorem delivered_prefix of Props/C09) - cited, the model's mailbox is a list",
@@ -77,11 +105,12 @@ CONFIG = dict(
         "proto.actor: messages from one sender to one receiver are delivered in send order, each once (local process registry here; `remote` not exercised)",
         "Go channel FIFO (ClientSession.chSend, Sche.chanTask), net.Conn write order = read order (net.Pipe here, TCP in production)",
         "shared bubble-node engine harness/node (real components, in-memory connections) and testing/synctest (go1.26) quiescence / virtual time",
-        "harness canonicalisation: payload tags decoded to (service, thread, counter, kind); heartbeats/handshakes ignored",
+        "harness canonicalisation: payload tags decoded to (service, thread, counter, kind) - for a push with an empty body from its route; heartbeats/handshakes ignored",
     ],
     assumptions=[
         "issue order of a thread = order in which its code called PushMessageById(s) / completed the request (for a worker goroutine: order of its Service.Post calls)",
         "a handler completes each request at most once and within the 30 s request timeout (a later response is dropped by the front: C01/C02)",
+        "every push / response encodes to a packet the pomelo encoder accepts (payload < 2^24 bytes, route <= 255 bytes): a refused packet is dropped alone by ClientSession.send and later items still arrive (reproduced, see level_note)",
         "one front-end per connection; the connection is not re-opened under the same session id",
         "code running on the service goroutine does not Post to its own full task queue (documented deadlock, C15)",
     ],
